@@ -247,6 +247,35 @@ fn source_info_case<const LEN: usize, const N: usize>() {
 #[kani::proof] #[kani::unwind(10)] fn source_info_3_1() { source_info_case::<3, 1>() }
 #[kani::proof] #[kani::unwind(10)] fn source_info_6_2() { source_info_case::<6, 2>() }
 #[kani::proof] #[kani::unwind(10)] fn source_info_8_2() { source_info_case::<8, 2>() }
+#[kani::proof] #[kani::unwind(10)] fn source_info_8_1() { source_info_case::<8, 1>() }   // thorough tier
+#[kani::proof] #[kani::unwind(10)] fn source_info_5_2() { source_info_case::<5, 2>() }   // thorough tier
+
+/// `SourceInfo::get_line` against the contract the Verus unit `srcinfo` assumes for it (partition point of the
+/// strictly increasing newline table).  BOUNDED: tables of K entries, entries and index symbolic.
+fn get_line_case<const K: usize>() {
+    let t: [usize; K] = kani::any();
+    let mut i = 0;
+    while i + 1 < K { kani::assume(t[i] < t[i + 1]); i += 1; }
+    let mut v = Vec::with_capacity(K);
+    let mut i = 0;
+    while i < K { v.push(t[i]); i += 1; }
+    let si = SourceInfo { src: String::new(), nl_indices: v };
+    let index: usize = kani::any();
+    let k = si.get_line(index);
+    assert!(k <= K, "C25.get_line: at most the number of table entries");
+    let mut i = 0;
+    while i < K {
+        if i < k { assert!(t[i] < index, "C25.get_line: every newline before the returned line lies before the index"); }
+        else { assert!(t[i] >= index, "C25.get_line: every newline from the returned line on lies at or after the index"); }
+        i += 1;
+    }
+    std::mem::forget(si);
+}
+#[kani::proof] #[kani::unwind(8)] fn get_line_1() { get_line_case::<1>() }
+#[kani::proof] #[kani::unwind(8)] fn get_line_2() { get_line_case::<2>() }
+#[kani::proof] #[kani::unwind(8)] fn get_line_3() { get_line_case::<3>() }
+#[kani::proof] #[kani::unwind(8)] fn get_line_4() { get_line_case::<4>() }
+#[kani::proof] #[kani::unwind(10)] fn get_line_7() { get_line_case::<7>() }   // thorough tier
 
 /// C25 trimming: `line_span` / `read_line` = the line without surrounding whitespace (BOUNDED: ASCII text of LEN
 /// bytes, N newlines; bytes symbolic).  Reference: explicit scan for the ASCII white-space set of `char::is_whitespace`.
@@ -340,76 +369,57 @@ fn symtab_rev_lookup_and_iter() {
     assert!(it.next().is_none(), "C23.list: and nothing else");
 }
 
-// ---- C19 / C20: linking two object files without symbol tables (block union + overlap test) ---------------
-/// BOUNDED: one block of 1..=2 words per file, start addresses symbolic (any u16, as an untrusted file may hold).
-/// Never panics; succeeds exactly when the two blocks share no address; the result holds exactly the two blocks.
-#[kani::proof]
-#[kani::unwind(6)]
-fn link_two_blocks() {
-    let (s1, s2): (u16, u16) = (kani::any(), kani::any());
-    let (w1, w2): (Option<u16>, Option<u16>) = (kani::any(), kani::any());
-    let two1: bool = kani::any();
-    let two2: bool = kani::any();
-    let mut b1 = Vec::with_capacity(2); b1.push(w1); if two1 { b1.push(None); }
-    let mut b2 = Vec::with_capacity(2); b2.push(w2); if two2 { b2.push(None); }
-    let (l1, l2) = (b1.len() as u32, b2.len() as u32);
-    let mut m1 = BTreeMap::new(); m1.insert(s1, b1);
-    let mut m2 = BTreeMap::new(); m2.insert(s2, b2);
-    let a = ObjectFile { block_map: m1, sym: None };
-    let b = ObjectFile { block_map: m2, sym: None };
-    // blocks as address intervals (mathematical integers; blocks produced by the assembler never wrap, blocks
-    // read from an untrusted file may)
-    let (e1, e2) = (s1 as u32 + l1, s2 as u32 + l2);
-    let disjoint = e1 <= s2 as u32 || e2 <= s1 as u32;
-    let wraps = e1 > 0x10000 || e2 > 0x10000;
-    kani::cover!(wraps, "wrapping block reachable");
-    let r = ObjectFile::link(a, b);        // C19: must not panic for any block, wrapping or not
-    if !wraps {
-        match r {
-            Ok(o) => { assert!(disjoint, "C20.link: succeeds only when the blocks are disjoint");
-                       assert!(o.block_map.len() == 2 && o.sym.is_none(), "C20.link: the image is the union of the two images"); }
-            Err(e) => { assert!(!disjoint, "C20.link: fails only when the blocks overlap");
-                        assert!(matches!(e.kind, AsmErrKind::OverlappingBlocks), "C20.link: overlapping blocks are reported as such");
-                        let _ = e.span.first(); }
+// ---- pass 1's label recording: `add_label` (nested in SymbolTable::new; text copied verbatim into the generated
+// sibling module `verif_kani_gen` on every run) -- C02 (duplicate labels), C23 (first occurrence kept), C26 (spans)
+use super::verif_kani_gen::add_label;
+/// A name not yet in the table is recorded under its upper-cased spelling with the given address, the start of
+/// its span and its external flag.  BOUNDED: two-letter name "Ab".
+#[kani::proof] #[kani::stub(std::hash::RandomState::new, stub_random_state)] #[kani::unwind(6)]
+fn add_label_vacant() {
+    let mut m: HashMap<String, SymbolData> = HashMap::new();
+    let (addr, external): (u16, bool) = (kani::any(), kani::any());
+    let start: usize = kani::any();
+    kani::assume(start < 1000);
+    let r = add_label(&mut m, &Label::new(String::from("Ab"), start..start + 2), addr, external);
+    assert!(r.is_ok(), "C02.label: a new label is accepted");
+    assert!(m.len() == 1, "C23.list: exactly one entry recorded");
+    match m.get("AB") {
+        Some(d) => assert!(d.addr == addr && d.src_start == start && d.external == external, "C23.record: recorded under the upper-cased name with its address, first occurrence and external flag"),
+        None => assert!(false, "C23.record: the label is recorded under its upper-cased name"),
+    }
+}
+/// A name already in the table (whatever the letter case of the new spelling): same address -> accepted and the
+/// first record is kept; different address -> OverlappingLabels naming the first occurrence and the new one, table
+/// unchanged.  An external declaration counts as address 0 like any other record.  BOUNDED: one entry "A", query "a";
+/// one obligation per outcome.
+fn add_label_occupied(conflict: bool) {
+    let (addr0, ext0, addr, external): (u16, bool, u16, bool) = (kani::any(), kani::any(), kani::any(), kani::any());
+    kani::assume(!ext0 || addr0 == 0);
+    kani::assume((addr != addr0) == conflict);
+    let mut m: HashMap<String, SymbolData> = HashMap::new();
+    m.insert(String::from("A"), SymbolData { addr: addr0, src_start: 3, external: ext0 });
+    let r = add_label(&mut m, &Label::new(String::from("a"), 9..10), addr, external);
+    kani::cover!(!conflict || ext0, "redefinition of an external declaration at a non-zero address reachable");
+    match r {
+        Ok(()) => assert!(!conflict, "C02.label: a label bound to two different addresses is rejected (an external declaration counts as address 0)"),
+        Err(e) => {
+            assert!(conflict, "C02.label: the same label at the same address is accepted");
+            assert!(matches!(e.kind, AsmErrKind::OverlappingLabels), "C02.kind: the error names the violated condition");
+            match &e.span {
+                ErrSpan::Two([s1, s2]) => assert!(*s1 == (3..4) && *s2 == (9..10), "C26.span: the error covers the first occurrence and the offending spelling of the label"),
+                _ => assert!(false, "C26.span: two spans"),
+            }
+            std::mem::forget(e);
         }
     }
-}
-
-// ---- C24: line <-> address map container (BOUNDED: 3 source lines; which lines hold a statement is fixed per
-// obligation so that every container size is concrete; the recorded addresses are symbolic) ------------------
-/// `LineSymbolMap::new(lines)`: for a line table whose recorded addresses increase with the line number (what pass 1
-/// produces), `get(i)` is exactly the address recorded for line i (nothing for lines without a statement or past
-/// the end) and `find(a)` is the line a was recorded for: the mapping is one-to-one.
-fn line_map_case<const P0: bool, const P1: bool, const P2: bool>() {
-    let (a0, a1, a2): (u16, u16, u16) = (kani::any(), kani::any(), kani::any());
-    let l0 = if P0 { Some(a0) } else { None };
-    let l1 = if P1 { Some(a1) } else { None };
-    let l2 = if P2 { Some(a2) } else { None };
-    let lines_arr = [l0, l1, l2];
-    // recorded addresses strictly increase with the line number
-    let mut last: Option<u16> = None;
-    let mut i = 0;
-    while i < 3 { if let Some(a) = lines_arr[i] { if let Some(p) = last { kani::assume(p < a); } last = Some(a); } i += 1; }
-    let mut v: Vec<Option<u16>> = Vec::with_capacity(3);
-    v.push(l0); v.push(l1); v.push(l2);
-    let m = match LineSymbolMap::new(v) { Some(m) => m, None => { assert!(false, "C24.new: an increasing line table is accepted"); return; } };
-    let mut q = 0;
-    while q < 5 {
-        let want = if q < 3 { lines_arr[q] } else { None };
-        assert!(m.get(q) == want, "C24.get: a line maps to exactly the address recorded for it; lines without a statement map to nothing");
-        q += 1;
+    assert!(m.len() == 1, "C23.list: no second entry");
+    match m.iter().next() {
+        Some((k, d)) => assert!(k.as_str() == "A" && d.addr == addr0 && d.src_start == 3 && d.external == ext0, "C23.record: the first occurrence's record is kept"),
+        None => assert!(false, "C23.record: the label stays recorded"),
     }
-    let a: u16 = kani::any();
-    let mut line_of: Option<usize> = None;
-    let mut i = 0;
-    while i < 3 { if lines_arr[i] == Some(a) { line_of = Some(i); } i += 1; }
-    kani::cover!(!(P0 || P1 || P2) || line_of.is_some(), "address present reachable");
-    assert!(m.find(a) == line_of, "C24.find: an address maps back to the line it was recorded for, and to nothing otherwise");
     std::mem::forget(m);
 }
-#[kani::proof] #[kani::unwind(8)] fn line_map_101() { line_map_case::<true, false, true>() }
-#[kani::proof] #[kani::unwind(8)] fn line_map_110() { line_map_case::<true, true, false>() }
-#[kani::proof] #[kani::unwind(8)] fn line_map_011() { line_map_case::<false, true, true>() }
-#[kani::proof] #[kani::unwind(8)] fn line_map_111() { line_map_case::<true, true, true>() }
-#[kani::proof] #[kani::unwind(8)] fn line_map_000() { line_map_case::<false, false, false>() }
-#[kani::proof] #[kani::unwind(8)] fn line_map_010() { line_map_case::<false, true, false>() }
+#[kani::proof] #[kani::stub(std::hash::RandomState::new, stub_random_state)] #[kani::unwind(6)]
+fn add_label_same_address() { add_label_occupied(false) }
+#[kani::proof] #[kani::stub(std::hash::RandomState::new, stub_random_state)] #[kani::unwind(6)]
+fn add_label_conflict() { add_label_occupied(true) }
